@@ -75,6 +75,11 @@ def dec_68000(kind, b, a):
             return a + 2 + sx(b[1], 8), 'short'
         if len(b) == 4 and b[0] == 0x60 and b[1] == 0:
             return a + 2 + sx(b[2] << 8 | b[3], 16), 'word'
+    elif kind == 'call':
+        if len(b) == 2 and b[0] == 0x61 and b[1] not in (0, 0xff):
+            return a + 2 + sx(b[1], 8), 'short'
+        if len(b) == 4 and b[0] == 0x61 and b[1] == 0:
+            return a + 2 + sx(b[2] << 8 | b[3], 16), 'word'
     elif kind == 'jump':
         if len(b) == 4 and b[:2] == b'\x4e\xf8':
             return sx(b[2] << 8 | b[3], 16) & 0xffffffff, 'abs.w'
@@ -145,7 +150,7 @@ def dec_8086(kind, b, a):
 TARGETS = {
     # cpu: (decoder, {kind: source template}, byte data op, reserve op, bases, max statement size, has padding, org syntax)
     '6502': (dec_6502, {'load': 'lda\t%s', 'jump': 'jmp\t%s', 'near': 'bne\t%s', 'word': 'adr\t%s'}, 'byt', 'dfs', [0x00, 0x80, 0xE0, 0xF8, 0x100, 0x1000], 3, False),
-    '68000': (dec_68000, {'branch': 'bra\t%s', 'jump': 'jmp\t%s', 'pcrel': 'lea\t%s(pc),a0', 'word': 'dc.l\t%s'}, 'dc.b', 'ds.b', [0x1000, 0x7F00, 0x7FF0, 0x10000], 6, True),
+    '68000': (dec_68000, {'branch': 'bra\t%s', 'call': 'bsr\t%s', 'jump': 'jmp\t%s', 'pcrel': 'lea\t%s(pc),a0', 'word': 'dc.l\t%s'}, 'dc.b', 'ds.b', [0x1000, 0x7F00, 0x7FF0, 0x10000], 6, True),
     '6809': (dec_6809, {'load': 'lda\t%s', 'jump': 'jmp\t%s', 'near': 'bra\t%s', 'long': 'lbra\t%s', 'word': 'fdb\t%s'}, 'fcb', 'rmb', [0x00, 0x80, 0xF0, 0x100, 0x1000], 3, False),
     '6811': (dec_6811, {'load': 'ldaa\t%s', 'jump': 'jmp\t%s', 'near': 'bra\t%s', 'word': 'fdb\t%s'}, 'fcb', 'rmb', [0x00, 0x80, 0xF0, 0x100, 0x1000], 3, False),
     '8086': (dec_8086, {'jump': 'jmp\t%s', 'word': 'dw\t%s'}, 'db', 'db', [0x100, 0x1000], 3, False),
@@ -166,6 +171,7 @@ def gen(rng):
     nstat = rng.randrange(5, 60)
     uses_padding = False
     nfwd = 0
+    exprs = [0]
     far_kinds = [k for k in kinds if k != 'near']
     size_budget = 200000 if cpu == '68000' else 60000
     big = cpu == '68000' and rng.random() < 0.3
@@ -205,7 +211,10 @@ def gen(rng):
             lab = rng.choice(labels)
             if lab in pending:
                 nfwd += 1
-            add('\t' + kinds[kind] % lab, 'ref', (kind, lab))
+            expr = lab if rng.random() < 0.7 or kind == 'pcrel' else rng.choice([lab + '+0', '0+' + lab, lab + '-1+1'])
+            if expr != lab:
+                exprs[0] += 1
+            add('\t' + kinds[kind] % expr, 'ref', (kind, lab))
             bump(maxsz)
         elif k == 6 and 'near' in kinds:
             # fixed short branch: only to a label that is provably within reach
@@ -310,7 +319,27 @@ def run_case(case, ctx):
         cyc = find_cycle(a.trace)
         if cyc:
             osc = ''
-            out.violate('pass-livelock' + (':padding-before-label' if (stmts is not None and uses_padding) else ''),
+            sub = ''
+            if stmts is not None:
+                import re as _re
+                lines_ = text.split('\n')
+                after_bsr = set()
+                for i_ in range(1, len(lines_)):
+                    m_ = _re.match(r'(lb\d+):', lines_[i_])
+                    if m_ and lines_[i_ - 1].startswith('\tbsr\t'):
+                        after_bsr.add((m_.group(1), i_ - 1))
+                hit_ = False
+                for lab_, prev_ in after_bsr:
+                    for j_, l_ in enumerate(lines_):
+                        if l_.startswith('\tbsr\t') and _re.search(r'\b%s\b' % lab_, l_) and not (j_ == prev_ and l_ == '\tbsr\t' + lab_):
+                            hit_ = True
+                if hit_:
+                    # a BSR to a label that directly follows a BSR: the back end's guard against 8/16-bit oscillation (symbol flag
+                    # NextLabelAfterBSR) only works for the plain-label BSR directly in front of the label
+                    sub = ':68000:bsr-to-label-following-a-bsr'
+                elif uses_padding:
+                    sub = ':padding-before-label'
+            out.violate('pass-livelock' + sub,
                         '%s: the pass loop revisits the symbol-table state of pass %d in pass %d while another pass is pending (cap %d): never terminates'
                         % (tag, cyc[0], cyc[1], PASS_CAP))
         else:
